@@ -1204,14 +1204,15 @@ pub fn speed_limit_run(ctx: &mut Ctx, rng: &mut Rng, interval: Option<usize>, ex
                     let (r, q) = (&rows[rows.len() - 1], &rows[rows.len() - 2]);
                     r.speed_target.value < r.speed_limit.value * (1.0 - 1e-9) && r.speed.value < q.speed.value && over <= 1.5
                 };
-                // second recorded shape of the same mechanism: the train holds the end value of one braking curve
-                // (target below the limit in force, speed == target, not accelerating) and one step of travel carries
-                // it past the first two points of the next curve, whose first decrement lies closer than that step;
-                // the violated limit is a point of that next curve (below the target the train was rightly holding)
+                // second recorded shape of the same mechanism: the train runs exactly at the target it was given (the end
+                // value of one braking curve, or the zone limit that curve led into; speed == target <= limit in force,
+                // not accelerating) and one step of travel carries it past the first two points of the next curve, whose
+                // first decrement lies closer than that step; the violated limit is a point of that next curve (below
+                // the target the train was rightly holding)
                 let entering = rows.len() >= 2 && {
                     let (r, q) = (&rows[rows.len() - 1], &rows[rows.len() - 2]);
                     let violated = parse("speed_limit=").unwrap_or(f64::INFINITY);
-                    r.speed_target.value < r.speed_limit.value * (1.0 - 1e-9) && r.speed.value == r.speed_target.value && q.speed.value == r.speed.value && violated < r.speed_target.value && over <= 1.5
+                    r.speed.value == r.speed_target.value && q.speed.value >= r.speed.value && r.speed_target.value <= r.speed_limit.value && violated < r.speed_target.value && over <= 1.5
                 };
                 let kind = if p.message.contains("Speed limit violated") { if tracking { "speed_limit_assert:tracking_braking_curve" } else if entering { "speed_limit_assert:next_braking_curve_entered_at_the_held_target" } else { "speed_limit_assert" } } else { "other" };
                 let xlast = rows.last().map(|r| r.offset.value).unwrap_or(0.0);
